@@ -165,6 +165,11 @@ impl HLCTimestamp {
             return Err(TimestampError::ClockDrift);
         }
 
+        // The logical time must stay representable, otherwise the packed seconds wrap around.
+        if ts_new.as_secs() > TIMESTAMP_MAX {
+            return Err(TimestampError::Overflow);
+        }
+
         let c_new = if ts_old == ts_new {
             c_old.checked_add(1).ok_or(TimestampError::Overflow)?
         } else {
@@ -210,6 +215,11 @@ impl HLCTimestamp {
 
         if ts_new.saturating_sub(ts) > MAX_CLOCK_DRIFT {
             return Err(TimestampError::ClockDrift);
+        }
+
+        // The logical time must stay representable, otherwise the packed seconds wrap around.
+        if ts_new.as_secs() > TIMESTAMP_MAX {
+            return Err(TimestampError::Overflow);
         }
 
         let c_new = {
